@@ -157,6 +157,9 @@ class C09(core.Property):
                   "<comp>_trace_satisfies_spec for resource, mutex, semaphore, rwlock, barrier, condition, preemptible resource: no hypothesis on the operation list "
                   "(every interleaving, malformed calls included)",
                   "barrier_trips_exactly_at_nth_arrival: the reachable state is not broken (a broken barrier rejects every wait)",
+                  "<comp>_engine_trace_satisfies_spec (mutex, semaphore, resource): wfE (decidable) — a `got t id` line only when the driver's pending list answers ok "
+                  "(the call became resumable — granted at once or woken —, has not resumed yet, and t is its wake-up clock value), a `fin` line only when nothing is "
+                  "pending; `hang` lines excluded (the model never spins, the judge always rejects them); 0 < capacity for semaphore / resource",
                   "pool_trace_satisfies_spec (max timeoutNs min idleNs, min <= max): the operation list is a timed schedule of generator segments, release calls, "
                   "abandonments, idle-timeout deliveries and warm-up segments, and Pool.SchedOk timeoutNs idleNs holds (decidable): no step answers `bad` (`made id` only "
                   "while call id's set-up is in flight, `wmade` only while a warm-up set-up is, no `timeout` of a call that was already handed a connection), the id of a "
@@ -192,8 +195,12 @@ class C09(core.Property):
                                       "woken process is started and has code left (true of a parked generator; not a field of ProcInv)",
         "trace theorems: judge mode": "<comp>_trace_satisfies_spec for Resource and the five sync primitives are for the judge's direct mode (engine = false): every clause on "
                                       "results, wake lists and public counters. The engine-mode bookkeeping of the same judges (`resolved` / `got` / `fin`: a woken process resumes "
-                                      "exactly once, at the wake-up clock value, after zero deliveries) is not part of the trace theorems: it is the models' Pend layer, justified by "
-                                      "wait_is_silent on the engine layer and compared on every engine transcript",
+                                      "exactly once, at the wake-up clock value, after zero deliveries) is now also proved for Mutex, Semaphore and Resource (incl. set_capacity): "
+                                      "mutex_/semaphore_/resource_engine_trace_satisfies_spec — the engine-mode judge accepts the model's engine-mode transcript (ops + `got` + `fin` "
+                                      "lines with the Pend layer as the driver keeps it) for every schedule satisfying the decidable wfE; mutex_engine_trace_accepts_iff shows wfE is "
+                                      "exactly what the judge demands, mutex_engine_immediate_resume_satisfies_spec is unconditional for every timed op list. Remaining: RWLock, Barrier "
+                                      "(the driver's pending list and the judge's resolved list differ by a permutation on a tripping wait), Condition (`reacq` engine branch); "
+                                      "faithfulness of traceE to the string-level driver is checked on concrete schedules (#guard against Driver.handle), not proved",
         "condition": "the model's `reacq` segment is an ordinary mutex acquire; that the driver's Pend layer lets a `reacq` run only for a notified call is part of the engine-mode "
                      "bookkeeping above",
         "preemptible resource": "theorems (incl. preempt_trace_satisfies_spec) are for wakeAfterPreempt = true, the repaired code "
@@ -1657,6 +1664,11 @@ THEOREMS: list[str] = [
     "HappyModel.C09.pool_abandoned_handoff_passed_on",   # a connection handed to an abandoned call goes to the next waiter / the idle list
     "HappyModel.C09.pool_idle_close_sound",              # only an idle connection, in the idle session its timer was armed for, never below min, no holder loses one
     "HappyModel.C09.pool_warmup_stops_at_min",
+    "HappyModel.C09.mutex_engine_trace_satisfies_spec",            # engine-mode judge accepts the model's engine transcript (ops / got / fin) for every wfE schedule
+    "HappyModel.C09.mutex_engine_trace_accepts_iff",               # … and accepts exactly the wfE schedules
+    "HappyModel.C09.mutex_engine_immediate_resume_satisfies_spec", # unconditional: every timed op list with each resumable call resuming at once, then fin
+    "HappyModel.C09.semaphore_engine_trace_satisfies_spec",
+    "HappyModel.C09.resource_engine_trace_satisfies_spec",         # incl. set_capacity; judge's resolved list = model's pend
     "HappyModel.C09.limiter_trace_satisfies_spec",
     "HappyModel.C09.limiter_trace_satisfies_spec_constructed",
     # barrier / condition clauses
